@@ -174,6 +174,7 @@ impl Check for C03 {
                 // (c) untyped, 1-3 arguments over one environment
                 let mut cfg = TypeCfg::default();
                 cfg.odd_labels = e.ratio(1, 4);
+                cfg.wide_table = true;
                 let tr: Triple = match gen_triple(&mut e, &cfg) {
                     Some(t) => t,
                     None => return Outcome::Skip("uninhabited-type"),
